@@ -223,7 +223,7 @@ type c07result struct {
 	evicted int
 }
 
-func c07run(ctx *verifhlib.Ctx, dir string, cfg c07cfg, ops []c07op) c07result {
+func c07run(ctx *verifhlib.Ctx, dir string, cfg c07cfg, next func(n int, st *store) (c07op, bool)) c07result {
 	os.RemoveAll(dir)
 	st, err := NewStore(&Config{CapacityBytes: cfg.cap, RootDir: dir, RebootIncompleteBlobs: cfg.reboot, ShardLength: cfg.shard}, tally.NoopScope)
 	if err != nil {
@@ -237,7 +237,11 @@ func c07run(ctx *verifhlib.Ctx, dir string, cfg c07cfg, ops []c07op) c07result {
 	var sops, sobs, hist []string
 	tags := map[string]bool{}
 	created, completed, removed := 0, 0, 0
-	for n, o := range ops {
+	for n := 0; ; n++ {
+		o, more := next(n, st.impl)
+		if !more {
+			break
+		}
 		key := c07key(o.key)
 		sv := c07scoped(st, o.scope, n%3 == 1)
 		scq := c07scopeCoq[o.scope]
@@ -392,16 +396,41 @@ func c07run(ctx *verifhlib.Ctx, dir string, cfg c07cfg, ops []c07op) c07result {
 
 const c07max = ^uint64(0)
 
-// shadow of what the generator needs to stay mostly on the non-error paths
-type c07shadow struct {
-	exists, complete, banned map[int]bool
-	md                       map[int]map[int]bool
+func c07fixed(ops []c07op) func(int, *store) (c07op, bool) {
+	return func(n int, _ *store) (c07op, bool) {
+		if n >= len(ops) {
+			return c07op{}, false
+		}
+		return ops[n], true
+	}
 }
 
-func c07gen(r *verifhlib.Rng, cfg c07cfg, nkeys, n int, malformed bool) []c07op {
-	sh := c07shadow{map[int]bool{}, map[int]bool{}, map[int]bool{}, map[int]map[int]bool{}}
+// c07gen draws the next operation against the store's CURRENT state (the shadow state is the
+// real one: the driver lives in the package), so that most operations take a non-error path.
+func c07gen(r *verifhlib.Rng, cfg c07cfg, nkeys, n int, malformed bool) func(int, *store) (c07op, bool) {
+	return func(i int, st *store) (c07op, bool) {
+		if i >= n {
+			return c07op{}, false
+		}
+		return c07next(r, cfg, nkeys, malformed, st), true
+	}
+}
+
+type c07shadow struct{ exists, complete, banned map[int]bool }
+
+func c07next(r *verifhlib.Rng, cfg c07cfg, nkeys int, malformed bool, st *store) c07op {
+	sh := c07shadow{map[int]bool{}, map[int]bool{}, map[int]bool{}}
+	for k := 0; k < nkeys; k++ {
+		if b, ok := st.blobs[c07key(k)]; ok {
+			sh.exists[k], sh.complete[k], sh.banned[k] = true, b.complete, b.evictionBanned
+		}
+	}
+	free := uint64(0)
+	if st.size <= cfg.cap {
+		free = cfg.cap - st.size
+	}
 	pickKey := func(want func(k int) bool) int {
-		if !malformed && r.Chance(85) {
+		if !malformed && r.Chance(92) {
 			var c []int
 			for k := 0; k < nkeys; k++ {
 				if want(k) {
@@ -415,7 +444,7 @@ func c07gen(r *verifhlib.Rng, cfg c07cfg, nkeys, n int, malformed bool) []c07op 
 		return r.Intn(nkeys)
 	}
 	scopeFor := func(k int) int {
-		if malformed || r.Chance(15) {
+		if malformed || r.Chance(12) {
 			return r.Intn(3)
 		}
 		if r.Chance(50) {
@@ -428,7 +457,7 @@ func c07gen(r *verifhlib.Rng, cfg c07cfg, nkeys, n int, malformed bool) []c07op 
 	}
 	size := func() uint64 {
 		c := cfg.cap
-		switch r.Intn(20) {
+		switch r.Intn(24) {
 		case 0:
 			return 0
 		case 1:
@@ -451,6 +480,20 @@ func c07gen(r *verifhlib.Rng, cfg c07cfg, nkeys, n int, malformed bool) []c07op 
 			return c/2 + 1
 		case 7:
 			return c / 3
+		case 8:
+			return free
+		case 9:
+			return free + 1
+		case 10:
+			if free > 0 {
+				return free - 1
+			}
+			return 0
+		case 11:
+			if malformed {
+				return c07max - st.size + uint64(r.Intn(3)) // size+space = 2^64-1, 2^64, 2^64+1
+			}
+			return c / 4
 		}
 		// typical: a fraction of the capacity so that 2-4 blobs fit
 		d := uint64(r.Range(2, 6))
@@ -460,61 +503,51 @@ func c07gen(r *verifhlib.Rng, cfg c07cfg, nkeys, n int, malformed bool) []c07op 
 		}
 		return v
 	}
-	var ops []c07op
-	for len(ops) < n {
+	any := func(k int) bool { return sh.exists[k] }
+	{
 		k := r.Intn(100)
 		var o c07op
 		switch {
 		case k < 20:
 			o = c07op{kind: c07CreateW, key: pickKey(func(k int) bool { return !sh.exists[k] }), size: size(), data: r.Bytes(r.Intn(6))}
-			// shadow is optimistic: admission may fail; the keys are re-synchronised lazily below
-			sh.exists[o.key] = true
-			sh.complete[o.key] = false
-			sh.banned[o.key] = false
 		case k < 34:
 			o = c07op{kind: c07MarkComplete, key: pickKey(func(k int) bool { return sh.exists[k] && !sh.complete[k] })}
-			if sh.exists[o.key] {
-				sh.complete[o.key] = true
-			}
 		case k < 46:
-			o = c07op{kind: c07OpenRead, key: pickKey(func(k int) bool { return sh.exists[k] })}
+			o = c07op{kind: c07OpenRead, key: pickKey(any)}
 			o.scope = scopeFor(o.key)
 		case k < 50:
-			o = c07op{kind: c07OpenWriteAt, key: pickKey(func(k int) bool { return sh.exists[k] }), off: int64(r.Intn(8)), data: r.Bytes(r.Intn(5))}
+			o = c07op{kind: c07OpenWriteAt, key: pickKey(any), off: int64(r.Intn(8)), data: r.Bytes(r.Intn(5))}
 			o.scope = scopeFor(o.key)
-		case k < 56:
-			o = c07op{kind: c07Delete, key: pickKey(func(k int) bool { return sh.exists[k] })}
+		case k < 55:
+			o = c07op{kind: c07Delete, key: pickKey(any)}
 			o.scope = scopeFor(o.key)
-			delete(sh.exists, o.key)
-		case k < 62:
+		case k < 61:
 			o = c07op{kind: c07Ban, key: pickKey(func(k int) bool { return sh.exists[k] && !sh.banned[k] })}
 			o.scope = scopeFor(o.key)
-			sh.banned[o.key] = true
 		case k < 68:
 			o = c07op{kind: c07Unban, key: pickKey(func(k int) bool { return sh.exists[k] && sh.banned[k] })}
 			o.scope = scopeFor(o.key)
-			sh.banned[o.key] = false
 		case k < 71:
 			o = c07op{kind: c07Has, key: r.Intn(nkeys), scope: r.Intn(3)}
 		case k < 74:
-			o = c07op{kind: c07Stat, key: pickKey(func(k int) bool { return sh.exists[k] })}
+			o = c07op{kind: c07Stat, key: pickKey(any)}
 			o.scope = scopeFor(o.key)
 		case k < 78:
 			o = c07op{kind: c07List, scope: r.Intn(3)}
 		case k < 84:
-			o = c07op{kind: c07SetMd, key: pickKey(func(k int) bool { return sh.exists[k] }), sfx: r.Intn(4), data: r.Bytes(r.Intn(5))}
+			o = c07op{kind: c07SetMd, key: pickKey(any), sfx: r.Intn(4), data: r.Bytes(r.Intn(5))}
 			o.scope = scopeFor(o.key)
 		case k < 89:
-			o = c07op{kind: c07GetMd, key: pickKey(func(k int) bool { return sh.exists[k] }), sfx: r.Intn(4)}
+			o = c07op{kind: c07GetMd, key: pickKey(any), sfx: r.Intn(4)}
 			o.scope = scopeFor(o.key)
 		case k < 91:
-			o = c07op{kind: c07DelMd, key: pickKey(func(k int) bool { return sh.exists[k] }), sfx: r.Intn(4)}
+			o = c07op{kind: c07DelMd, key: pickKey(any), sfx: r.Intn(4)}
 			o.scope = scopeFor(o.key)
 		case k < 94:
-			o = c07op{kind: c07ListMd, key: pickKey(func(k int) bool { return sh.exists[k] })}
+			o = c07op{kind: c07ListMd, key: pickKey(any)}
 			o.scope = scopeFor(o.key)
 		case k < 96:
-			o = c07op{kind: c07WriteAtMd, key: pickKey(func(k int) bool { return sh.exists[k] }), sfx: r.Intn(4), off: int64(r.Intn(6)), data: r.Bytes(r.Intn(4))}
+			o = c07op{kind: c07WriteAtMd, key: pickKey(any), sfx: r.Intn(4), off: int64(r.Intn(6)), data: r.Bytes(r.Intn(4))}
 			if malformed && r.Chance(30) {
 				o.off = -1
 			}
@@ -525,21 +558,21 @@ func c07gen(r *verifhlib.Rng, cfg c07cfg, nkeys, n int, malformed bool) []c07op 
 				o.pct = []int{-1, 100, 101, -50}[r.Intn(4)]
 			}
 		}
-		ops = append(ops, o)
+		return o
 	}
-	return ops
 }
 
 func c07driver(ctx *verifhlib.Ctx) {
 	log.SetGlobalLogger(zap.NewNop().Sugar())
 	r := verifhlib.NewRng(ctx.Seed)
 	ncase := 0
-	emit := func(cfg c07cfg, ops []c07op, kind string) {
+	emitg := func(cfg c07cfg, next func(int, *store) (c07op, bool), kind string) {
 		ncase++
-		res := c07run(ctx, filepath.Join(ctx.Tmp, fmt.Sprintf("s%d", ncase)), cfg, ops)
+		res := c07run(ctx, filepath.Join(ctx.Tmp, fmt.Sprintf("s%d", ncase)), cfg, next)
 		ctx.Emit(verifhlib.Case{Coq: res.coq, NT: res.nt, Kind: kind, Hist: res.hist, Tags: res.tags,
 			Sample: map[string]string{"case": res.coq}})
 	}
+	emit := func(cfg c07cfg, ops []c07op, kind string) { emitg(cfg, c07fixed(ops), kind) }
 	cw := func(k int, size uint64, data string) c07op {
 		return c07op{kind: c07CreateW, key: k, size: size, data: []byte(data)}
 	}
@@ -615,6 +648,6 @@ func c07driver(ctx *verifhlib.Ctx) {
 		if cfg.cap > 1<<40 {
 			kind += "-hugecap"
 		}
-		emit(cfg, c07gen(rr, cfg, rr.Range(3, 5), rr.Range(4, maxLen), malformed), kind)
+		emitg(cfg, c07gen(rr, cfg, rr.Range(3, 5), rr.Range(4, maxLen), malformed), kind)
 	}
 }
